@@ -31,3 +31,141 @@ Theorem constants_spec :
   is_nearest_double ps_in_s gen_picosecond2second = true.
 Proof. exact constants_spec_l. Qed.
 Print Assumptions constants_spec.
+
+(* ------------------------------------------------------------------------------------------------
+   Position record (columns of Spec/C13_Sp3Format.spec_P).  [render_P] writes the 80-column record with every value
+   right-justified in its columns; x y z clk are the numbers of the file in units of 1e-6 (F14.6), s1 s2 s3 sc the
+   optional accuracy exponents, f1..f4 the flag characters. *)
+Theorem position_record_roundtrip :
+  forall m time v bp bc sat0 satr x y z clk s1 s2 s3 sc f1 f2 f3 f4,
+    meta_get "version" m = Some (MStr v) -> v <> "a" ->
+    meta_num "base_posvel" m = Some bp -> meta_num "base_clkrate" m = Some bc ->
+    trimmed (String sat0 satr) = true -> (len (String sat0 satr) <= 3)%nat ->
+    fits_F 14 6 x -> fits_F 14 6 y -> fits_F 14 6 z -> fits_F 14 6 clk ->
+    code_ok 2 s1 -> code_ok 2 s2 -> code_ok 2 s3 -> code_ok 3 sc ->
+    flag_ok f1 -> flag_ok f2 -> flag_ok f3 -> flag_ok f4 ->
+    let line := render_P (String sat0 satr) x y z clk s1 s2 s3 sc f1 f2 f3 f4 in
+    len line = 80%nat /\ slice 0 1 line = "P" /\
+    parse_record spec_P line = P_vals (String sat0 satr) x y z clk s1 s2 s3 sc f1 f2 f3 f4 /\
+    position_record all_off m time (parse_record spec_P line) =
+    Some (mkR time (String sat0 satr) [pos_sem x; pos_sem y; pos_sem z] (clk_sem clk)
+              [sig_sem bp mm_in_m s1; sig_sem bp mm_in_m s2; sig_sem bp mm_in_m s3]
+              (sig_sem bc (ps_in_s * c_light) sc) (String sat0 "") [code_sem s1; code_sem s2; code_sem s3; code_sem sc]).
+Proof. exact position_record_roundtrip_l. Qed.
+Print Assumptions position_record_roundtrip.
+
+(* The same record with its trailing blanks removed (lines cut after the clock field, after the accuracy columns, ...;
+   this is also what ChainParser.read_data does with every line) parses to the same values. *)
+Theorem position_record_cut_roundtrip :
+  forall sat x y z clk s1 s2 s3 sc f1 f2 f3 f4,
+    fits spec_P (P_vals sat x y z clk s1 s2 s3 sc f1 f2 f3 f4) ->
+    parse_record spec_P (rstrip (render_P sat x y z clk s1 s2 s3 sc f1 f2 f3 f4)) =
+    P_vals sat x y z clk s1 s2 s3 sc f1 f2 f3 f4.
+Proof. exact position_record_cut_roundtrip_l. Qed.
+Print Assumptions position_record_cut_roundtrip.
+
+(* kilometres -> metres (x 1000), microseconds -> metres of light travel (x 1e-6 x c); x in units of 1e-6 *)
+Theorem units_spec :
+  forall w x,
+    (x <> 0%Z -> exists q, pos_value (render_F w 6 x) = Some (FNum q) /\ q == inject_Z x / 1000) /\
+    (x <> 999999999999%Z -> exists q, clk_value (render_F w 6 x) = Some (FNum q) /\
+                                      q == inject_Z x * 299792458 / 1000000000000).
+Proof. exact units_spec_l. Qed.
+Print Assumptions units_spec.
+
+(* NaN exactly for 0.000000 (positions), 999999.999999 (clock) and blank accuracy columns *)
+Theorem sentinels_spec :
+  forall w,
+    pos_value (render_F w 6 0) = Some FNaN /\
+    clk_value (render_F w 6 999999999999) = Some FNaN /\
+    (forall Qk b u, sigma_value Qk b u "" = Some FNaN) /\
+    (forall x, pos_value (render_F w 6 x) = Some FNaN <-> x = 0%Z) /\
+    (forall x, clk_value (render_F w 6 x) = Some FNaN <-> x = 999999999999%Z).
+Proof. exact sentinels_spec_l. Qed.
+Print Assumptions sentinels_spec.
+
+(* accuracy code n -> base^n units (mm resp. ps), as the format defines it *)
+Theorem sigma_spec :
+  forall base unit n, (0 <= n < 1000)%Z ->
+    exists q, sigma_value all_off base unit (render_nat n) = Some (FNum q) /\ q == Qpower base n * unit.
+Proof. exact sigma_spec_l. Qed.
+Print Assumptions sigma_spec.
+
+(* epoch header record with any blank separators -> "Y-MM-DDTHH:MM:SS.sssssss"; n7 = seconds in units of 1e-7 *)
+Theorem epoch_spec :
+  forall st s1 s2 s3 s4 s5 s6 y mo d h mi n7,
+    sep_ok s1 -> sep_ok s2 -> sep_ok s3 -> sep_ok s4 -> sep_ok s5 -> sep_ok s6 ->
+    (0 <= y)%Z -> (0 <= mo < 100)%Z -> (0 <= d < 100)%Z -> (0 <= h < 100)%Z -> (0 <= mi < 100)%Z ->
+    (0 <= n7 < 1000000000)%Z ->
+    date_step spec_tables st (epoch_line s1 s2 s3 s4 s5 s6 y mo d h mi n7) = Some (set_time st (time_string y mo d h mi n7)).
+Proof. exact epoch_spec_full_l. Qed.
+Print Assumptions epoch_spec.
+
+(* velocity, correlation (EP, EV) and any other records of the data section change nothing *)
+Theorem ignored_lines_spec :
+  forall T Qk st c r, c <> "*"%char -> c <> "P"%char -> data_step T Qk st (String c r) = Some st.
+Proof. exact ignored_lines_spec_l. Qed.
+Print Assumptions ignored_lines_spec.
+
+(* one epoch block (epoch header + any number of position / other records) appends exactly its position records,
+   in file order, with the epoch of the block *)
+Theorem sp3_epoch_block_roundtrip :
+  forall m bp bc b st,
+    st_meta st = m -> meta_good m bp bc -> block_ok b -> (forall r, In r (st_recs st) -> r_time r <> b_time b) ->
+    exists st', run spec_tables all_off st false (render_block b) = Some st' /\
+                st_hdr st' = false /\ st_meta st' = m /\
+                st_recs st' = (rev (recs_of_block bp bc b) ++ st_recs st)%list.
+Proof. exact run_block. Qed.
+Print Assumptions sp3_epoch_block_roundtrip.
+
+(* whole file: header lines that parse to the meta data m, any number (>= 1) of epoch blocks with distinct epochs,
+   each with any number of satellites and interleaved V / EP / EV lines, then EOF-like lines *)
+Theorem sp3_file_roundtrip :
+  forall H n m bp bc bs trailer,
+    H <> [] -> run spec_tables all_off init_state true H = Some (mkS true None n m []) ->
+    meta_good m bp bc -> bs <> [] -> Forall block_ok bs -> NoDup (map b_time bs) ->
+    Forall bline_ok trailer -> (forall l, In l trailer -> exists c r, l = LOther c r) ->
+    parse_file spec_tables all_off (H ++ flat_map render_block bs ++ map render_bline trailer)%list =
+    Some (m, flat_map (recs_of_block bp bc) bs).
+Proof. exact sp3_file_roundtrip_l. Qed.
+Print Assumptions sp3_file_roundtrip.
+
+(* the Dataset epoch of a record: Julian day at 0h and seconds of day, fraction in units of 1e-7 s *)
+Theorem dataset_epoch_spec :
+  forall y mo d h mi n7,
+    (1000 <= y <= 9999)%Z -> (1 <= mo <= 12)%Z -> (1 <= d <= 31)%Z -> (0 <= h <= 23)%Z -> (0 <= mi <= 59)%Z ->
+    (0 <= n7 < 600000000)%Z ->
+    epoch_of_time all_off (time_string y mo d h mi n7) =
+    Some ((inject_Z (jdn y mo d) - (1 # 2))%Q,
+          (inject_Z (h * 3600 + mi * 60 + n7 / 10000000) + inject_Z (n7 mod 10000000) / 10000000)%Q).
+Proof. exact dataset_epoch_spec_l. Qed.
+Print Assumptions dataset_epoch_spec.
+
+Theorem c13_sigma_multiplied_refuted :
+  exists q q', sigma_value all_off (5 # 4) mm_in_m "7" = Some (FNum q) /\
+               sigma_value (mkQ true false) (5 # 4) mm_in_m "7" = Some (FNum q') /\ ~ q == q'.
+Proof. exact c13_sigma_multiplied_refuted_l. Qed.
+Print Assumptions c13_sigma_multiplied_refuted.
+
+Theorem c13_dataset_fraction_as_ms_refuted :
+  exists day sod sod', epoch_of_time all_off "2016-03-01T00:00:00.5000000" = Some (day, sod) /\
+                       epoch_of_time (mkQ false true) "2016-03-01T00:00:00.5000000" = Some (day, sod') /\
+                       sod == 1 # 2 /\ sod' == 5000.
+Proof. exact c13_dataset_fraction_as_ms_refuted_l. Qed.
+Print Assumptions c13_dataset_fraction_as_ms_refuted.
+
+(* non-vacuity: a concrete header satisfies the header hypothesis, a concrete block the block hypothesis *)
+Example header_hypothesis_satisfiable :
+  exists n m, run spec_tables all_off init_state true ex_header = Some (mkS true None n m []) /\
+              meta_good m (12500000 # 10000000) (1025000000 # 1000000000).
+Proof. exact ex_header_parses. Qed.
+Example block_hypothesis_satisfiable : block_ok ex_block.
+Proof. exact ex_block_ok. Qed.
+Example block_text :
+  render_block ex_block =
+  ["*  2016 3  1  0  0  0.50000000";
+   "PG01  10138.887745 -20456.557725 -13455.830128     13.095853  7  6  4 137       ";
+   "EP   55   55   55     222 1234567 -1234567 5999999      -30      21 -1230000";
+   "VG01  20298.880364 -18462.044804   1381.387685     -4.534317 14 14 14 191";
+   "PG02      0.000000      0.000000      0.000000 999999.999999              EP  MP"].
+Proof. exact ex_block_lines. Qed.
